@@ -157,6 +157,7 @@ func runC09(e *emitter, idx int, c *HistCase) {
 type AssumeCase struct {
 	P      *Prob   `json:"p"`
 	Rounds [][]int `json:"rounds"`
+	Rst    int     `json:"rst,omitempty"` // > 0: the restart policy fires at one quiet point out of Rst (hook)
 }
 
 func genC10(r *rand.Rand, idx int, tier string) *AssumeCase {
@@ -175,6 +176,9 @@ func genC10(r *rand.Rand, idx int, tier string) *AssumeCase {
 		p.Front = "slicenb"
 	}
 	c := &AssumeCase{P: p}
+	if r.Intn(3) == 0 {
+		c.Rst = 1 + r.Intn(6)
+	}
 	nv := p.NbVars()
 	nr := 1 + r.Intn(6)
 	var prev []int
@@ -229,6 +233,9 @@ func runC10(e *emitter, idx int, c *AssumeCase) {
 			panic(fmt.Sprintf("parse error: %v", err))
 		}
 		s := solver.New(pb)
+		if c.Rst > 0 {
+			setRestart(s, c.Rst)
+		}
 		for _, ls := range rounds {
 			lits := make([]solver.Lit, len(ls))
 			for i, l := range ls {
